@@ -1,4 +1,5 @@
 """C02 - Lazy reader expressions commute with eager NumPy evaluation."""
+import os
 import shutil
 
 import numpy as np
@@ -351,6 +352,43 @@ def _big_index(case, ctx):
                                   '(%s)[index array of %d rows, read no. %d]: %s' % (name, len(ix), 3 * rep + j, rr.exc if not rr.ok else same(rr.value, E[ix])),
                                   {'backend': be, 'big_index': True}, tb=rr.tb)
                     return
+        # augmented assignment on a second name of a derived reader (h = g; h *= c): h is a new expression, g keeps its own
+        import operator
+        for nm, iop, c in (('+=', operator.iadd, 3), ('-=', operator.isub, 3), ('*=', operator.imul, 2.5), ('/=', operator.itruediv, 2),
+                           ('//=', operator.ifloordiv, 2), ('**=', operator.ipow, 2)):
+            g = rd * 3
+            Eg = A * 3
+            ctx.count(1, key=hkey('iop', be, nm), nontrivial=True, cell=(be, 'int32', 'augmented_assignment'))
+            rh = call(lambda: iop(g, c))
+            Eh = getattr(operator, iop.__name__[1:])(Eg, c)        # (h op= c on a reader means h = h op c)
+            rows_ = slice(5, 40)
+            rg = call(lambda: g[rows_])
+            if not rh.ok or not rg.ok or same(rg.value, Eg[rows_]) or not call(lambda: rh.value[rows_]).ok or same(rh.value[rows_], Eh[rows_]):
+                ctx.violation('interference', {'kind': 'big_index', 'backend': be, 'seed': case['seed'], 'iop': nm},
+                              'g = reader * 3; h = g; h %s %r: g[5:40] %s, h[5:40] %s' % (
+                                  nm, c, (rg.exc if not rg.ok else same(rg.value, Eg[rows_])) or 'ok',
+                                  (rh.exc if not rh.ok else (same(rh.value[rows_], Eh[rows_]) if call(lambda: rh.value[rows_]).ok else 'read raised')) or 'ok'),
+                              {'backend': be, 'augmented_assignment': True}, tb=rh.tb or rg.tb)
+                return
+        # reads of more than 65536 rows through expressions, also ones that keep a single channel (1-D results)
+        if be in ('flat', 'array'):
+            n2 = 70000
+            A2 = L.unique_cells(n2, 2, np.dtype('int32'))
+            if be == 'flat':
+                os.makedirs(os.path.join(d, 'long'))
+                rd2 = get_ephys_reader(L.write_flat(os.path.join(d, 'long'), A2, [30000, 40000], ext='.bin'), sample_rate=100., dtype=A2.dtype, n_channels=2)
+            else:
+                rd2 = get_ephys_reader(A2.copy(), sample_rate=100.)
+            for name, r_, E in (('(reader * 2)[:, 1]', (rd2 * 2)[:, 1], (A2 * 2)[:, 1]), ('reader[:, 1] / 4', rd2[:, 1] / 4, A2[:, 1] / 4),
+                                ('(reader - 1)[:, [1, 0]]', (rd2 - 1)[:, [1, 0]], (A2 - 1)[:, [1, 0]])):
+                for rows_ in (slice(0, n2), slice(100, 66000)):
+                    ctx.count(1, key=hkey('long', be, name, rows_.start), nontrivial=True, cell=(be, 'int32', 'long_read'))
+                    rr = call(lambda: r_[rows_])
+                    if not rr.ok or same(rr.value, E[rows_]):
+                        ctx.violation('value_mismatch' if rr.ok else 'index_raised', {'kind': 'big_index', 'backend': be, 'seed': case['seed'], 'long': name},
+                                      '%s[%d:%d]: %s' % (name, rows_.start, rows_.stop, rr.exc if not rr.ok else same(rr.value, E[rows_])),
+                                      {'backend': be, 'long_read': True}, tb=rr.tb)
+                        return
     finally:
         shutil.rmtree(d, ignore_errors=True)
 
